@@ -163,6 +163,11 @@ class Driver:
         self.types = list(types)
         self.decodable = list(decodable)
         self.tdf = Tdf(path)
+        # a second object on the same path: the two take turns, context by context (an object that
+        # was used before must not rely on what it parsed in its earlier contexts)
+        self.other = Tdf(path)
+        self.pending = False      # allow_write() called on the current object and not yet used up
+        self.turns = 0
         self.inside = False
         self.stuck = False
 
@@ -262,8 +267,13 @@ class Driver:
     # ------------------------------------------------------------ execution
     def execute(self, op):
         """op: concrete call (dict).  Returns the trace event."""
-        t = self.tdf
         kind = op["op"]
+        if kind in ("allow_write", "enter") and not self.inside and not self.pending:
+            # both objects are closed and read-only here, so they are interchangeable for the model
+            self.turns += 1
+            if self.turns % 3 != 0:
+                self.tdf, self.other = self.other, self.tdf
+        t = self.tdf
         ev = dict(op=kind, t=0, u=0, sz=0, fmt=0, c=0, cok=True, bad="none", cd=0, md=0, leak=False)
         self.copy_leak = False
         call = None
@@ -311,7 +321,9 @@ class Driver:
             else:
                 call = lambda: t.remove_block(BlockType(op["rt"]))  # noqa: E731
         elif kind == "allow_write":
-            call = t.allow_write
+            def call():
+                t.allow_write()
+                self.pending = True
         elif kind == "enter":
             def call():
                 t.__enter__()
@@ -319,6 +331,7 @@ class Driver:
         elif kind in ("exit", "exit_exc"):
             def call():
                 self.inside = False
+                self.pending = False
                 if kind == "exit":
                     t.__exit__(None, None, None)
                 else:
